@@ -4,6 +4,8 @@ package c15
 import (
 	"fmt"
 	"reflect"
+	"runtime"
+	"runtime/debug"
 	"sort"
 	"strings"
 
@@ -97,13 +99,14 @@ func Check() *common.Check {
 		Level: "exploration",
 		// every case is recorded before it runs: a fatal error or a hang of the worker is attributed to it
 		CrashSafe: true,
-		Rule: "every SELECT / set operation / INSERT / UPDATE / DELETE / MERGE statement of the sqlgen space (quick: without 3-operator shapes; thorough: all) that the parser accepts; the generator records every identifier it places with its role " +
+		Rule: "recycled nodes: every ordered pair of representative expression statements - the second extracted from empty pools, then again after the first was parsed and released (one process, one P, collector off), with equal name sets; every SELECT / set operation / INSERT / UPDATE / DELETE / MERGE statement of the sqlgen space (quick: without 3-operator shapes; thorough: all) that the parser accepts; the generator records every identifier it places with its role " +
 			"(table, column, function, alias, cte, string), names of different roles are drawn from disjoint families (t*, c*, f*/known functions, a*, w*, s*); each statement is also re-extracted under the one-lexeme-per-line lower-case layout; UNION ALL chains and AND / OR chains (a sub-query in the first / last operand) of 1..12, 49..51, 98..103, 140, 200, 300, 500 operands and IN sub-queries nested 1..99 deep, every branch / level with names of its own. " +
 			"distinct = distinct SQL text; non-trivial = at least two names of different roles placed",
 		Assume: []string{"the unqualified table variant may or may not keep a schema prefix (the property only fixes the qualified variant): compared on the last name component",
 			"function names compared case-insensitively", "DDL statements are outside this property's statement list"},
 		Enumerate: func(e *common.Enum) {
 			enumerateDeep(e)
+			enumerateRecycled(e)
 			sqlgen.All(e.Thorough(), func(name string, s sqlgen.S) {
 				switch s.Kind {
 				case "select", "setop", "insert", "update", "delete", "merge":
@@ -213,6 +216,64 @@ func Check() *common.Check {
 				})
 			})
 		},
+	}
+}
+
+// enumerateRecycled: the tree a statement is extracted from is built from pooled nodes that an earlier, released tree went
+// into.  Every ordered pair of representative expression statements: the second is extracted from empty pools first (nothing
+// is released before that), then again after the first was parsed and released - in one process, one P, collector off.  The
+// name sets must be the same.
+func enumerateRecycled(e *common.Enum) {
+	var reps []sqlgen.S
+	seen := map[string]bool{}
+	sqlgen.HoleCases(func(hole, rep string, st sqlgen.S) {
+		if hole != "select.item" {
+			return
+		}
+		if sql := st.SQL(); !seen[sql] {
+			seen[sql] = true
+			reps = append(reps, st)
+		}
+	})
+	show := func(s *sets) string {
+		return fmt.Sprint(keys(set(s.tables)), keys(set(s.tablesQ)), keys(set(s.cols)), keys(set(s.colsQ)), upper(keys(set(s.funcs))))
+	}
+	for _, a := range reps {
+		a := a
+		e.Do("recycled|"+a.SQL(), func(c *common.Ctx) {
+			c.Input("parse and release, then extract every representative statement; first: " + a.SQL())
+			runtime.GOMAXPROCS(1)
+			defer debug.SetGCPercent(debug.SetGCPercent(-1))
+			runtime.GC()
+			runtime.GC()
+			ref := make([]string, len(reps))
+			for i, b := range reps {
+				if s, _, _, err := extract(b.SQL()); err == nil {
+					ref[i] = show(s)
+				}
+			}
+			for i, b := range reps {
+				if ref[i] == "" {
+					continue
+				}
+				if first, err := gosqlx.Parse(a.SQL()); err == nil {
+					ast.ReleaseAST(first)
+				}
+				s, _, tree, err := extract(b.SQL())
+				if err != nil {
+					c.Fail("recycled:rejected", fmt.Sprintf("%q is accepted from empty pools and rejected after %q was parsed and released: %v", b.SQL(), a.SQL(), err))
+					return
+				}
+				if got := show(s); got != ref[i] {
+					c.Fail("recycled:extraction-differs", fmt.Sprintf("after %q was parsed and released, %q yields\n %s\nfrom empty pools it yields\n %s", a.SQL(), b.SQL(), got, ref[i]))
+					return
+				}
+				ast.ReleaseAST(tree)
+				c.Count("recycled_pairs", 1)
+			}
+			c.Outcome("recycled:same")
+			c.NonTrivial()
+		})
 	}
 }
 
